@@ -76,6 +76,11 @@ traits Eq
 derive Clone, Copy
 traits Eq
 @*/
+// `impl Deref for ShredIndex` (src/shredder/shred_index.rs): the index as a usize
+impl std::ops::Deref for ShredIndex {
+    type Target = usize;
+    fn deref(&self) -> (r: &usize) ensures *r == self.0 { &self.0 }
+}
 pub struct SliceHeader { pub slot: Slot, pub slice_index: SliceIndex, pub is_last: bool }
 pub struct ShredPayload { pub header: SliceHeader, pub shred_index: ShredIndex }
 #[verifier::external_body] pub struct Shred { _p: () }
@@ -334,6 +339,142 @@ loop 0
             (relay.0 as int) < validators@.len(),
             to@ == spec_recipients(validators@, verif_k as int, relay.0 as int, leader.0 as int),
         decreases validators@.len() - verif_k,
+@*/
+}
+
+
+// ---------------------------------------------------------------- Turbine: which tree a shred travels on
+/*@ extract src/disseminator/turbine.rs :: const MAX_CACHED_TREES
+@*/
+/*@ extract src/disseminator/turbine.rs :: struct TurbineTree
+derive
+@*/
+impl Clone for TurbineTree {
+    #[verifier::external_body]
+    fn clone(&self) -> (r: Self) ensures r == *self { unimplemented!() }
+}
+/*@ extract src/disseminator/turbine.rs :: struct Turbine
+@*/
+// the tree every node computes for (slot, index of the shred in the slot), seen from `own_id`: root, parent and children of
+// that validator.  TurbineTree::new seeds a StdRng from exactly (slot, shred) and shuffles the validators by stake; its two
+// position expressions are PROVED above (turbine_positions); the shuffle itself is trusted to be a function of its inputs.
+pub uninterp spec fn spec_tree(validators: Seq<ValidatorInfo>, fanout: usize, own_id: ValidatorIndex, slot: Slot, shred: usize) -> TurbineTree;
+// the members of a tree are validators of the set it was built from (the shuffle permutes the indices 0..n).  TRUSTED.
+pub open spec fn tree_members_ok(t: TurbineTree, n: int) -> bool {
+    (t.root.0 as int) < n && forall|i: int| 0 <= i < t.children@.len() ==> (#[trigger] t.children@[i]).0 < n
+}
+#[verifier::external_body]
+pub proof fn axiom_tree_members(validators: Seq<ValidatorInfo>, fanout: usize, own_id: ValidatorIndex, slot: Slot, shred: usize)
+    ensures tree_members_ok(spec_tree(validators, fanout, own_id, slot, shred), validators.len() as int)
+{}
+impl TurbineTree {
+    #[verifier::external_body]
+    pub fn new(validators: &Vec<ValidatorInfo>, fanout: usize, own_id: ValidatorIndex, slot: Slot, shred: usize) -> (r: Self)
+        ensures
+            r == spec_tree(validators@, fanout, own_id, slot, shred),
+    { unimplemented!() }
+}
+// the addresses of a list of validators: `children.iter().copied().map(|child| ..validator(child).disseminator_address)` (R8)
+pub open spec fn spec_addrs(vals: Seq<ValidatorInfo>, ids: Seq<ValidatorIndex>) -> Seq<SocketAddr> {
+    Seq::new(ids.len(), |i: int| spec_addr(vals[ids[i].0 as int]))
+}
+#[verifier::external_body]
+pub fn verif_addrs_of(epoch: &EpochInfo, ids: &Vec<ValidatorIndex>) -> (r: Vec<SocketAddr>)
+    requires forall|i: int| 0 <= i < ids@.len() ==> (#[trigger] ids@[i]).0 < epoch.validators@.len(),
+    ensures r@ == spec_addrs(epoch.validators@, ids@),
+{ unimplemented!() }
+impl ShredPayload {
+/*@ extract src/shredder.rs :: impl ShredPayload/fn index_in_slot
+ret r
+requires
+        self.header.slice_index.0 < 1024 && self.shred_index.0 < TOTAL_SHREDS,
+ensures
+        r == self.header.slice_index.0 * TOTAL_SHREDS + self.shred_index.0,
+@*/
+}
+impl<N: ShredNetwork> Turbine<N> {
+    pub open spec fn spec_own_tree(&self, slot: Slot, shred: usize) -> TurbineTree {
+        spec_tree(self.epoch_info.epoch.validators@, self.fanout, self.epoch_info.own_id, slot, shred)
+    }
+    // the tree cache is pure memoisation
+    pub open spec fn tree_cache_ok(&self) -> bool {
+        forall|k: (Slot, usize)| #[trigger] self.tree_cache.content().contains_key(k) ==> self.tree_cache.content()[k] == self.spec_own_tree(k.0, k.1)
+    }
+    // `self.tree_cache.insert(key, tree.clone())` (R8): only the computed tree may be cached
+    #[verifier::external_body]
+    pub fn verif_tree_cache_insert(&self, key: (Slot, usize), tree: TurbineTree)
+        requires tree == self.spec_own_tree(key.0, key.1),
+    { unimplemented!() }
+    pub open spec fn spec_shred_key(shred: Shred) -> usize {
+        (shred.spec_payload().header.slice_index.0 * TOTAL_SHREDS + shred.spec_payload().shred_index.0) as usize
+    }
+
+}
+impl TurbineTree {
+/*@ extract src/disseminator/turbine.rs :: impl TurbineTree/fn get_root
+ret r
+ensures
+        r == self.root,
+@*/
+/*@ extract src/disseminator/turbine.rs :: impl TurbineTree/fn get_children
+ret r
+ensures
+        r@ == self.children@,
+@*/
+}
+impl<N: ShredNetwork> Turbine<N> {
+/*@ extract src/disseminator/turbine.rs :: impl Turbine<N>/fn get_tree
+props C16
+ret r
+rewrite[R8] `self.tree_cache.insert((slot, shred), tree.clone());` => `self.verif_tree_cache_insert((slot, shred), tree.clone());`
+rewrite[R8] `self.epoch_info.epoch_info().validators()` => `&self.epoch_info.epoch.validators`
+rewrite[R8] `self.epoch_info.own_id()` => `self.epoch_info.own_id`
+requires
+        self.tree_cache_ok(),
+ensures
+        // [C16.tree_is_a_function_of_slot_and_shred_position_only] cache hit or not
+        r == self.spec_own_tree(slot, shred),
+        tree_members_ok(r, self.epoch_info.epoch.validators@.len() as int),
+before `if let Some(tree) = self.tree_cache.get(&(slot, shred))`
+        proof { axiom_tree_members(self.epoch_info.epoch.validators@, self.fanout, self.epoch_info.own_id, slot, shred); }
+@*/
+
+/*@ extract src/disseminator/turbine.rs :: impl Turbine<N>/fn send_shred_to_root
+props C16
+ret r
+elide-async
+sig `&self` => `&mut self`
+sig `std::io::Result<()>` => `Result<(), IoError>`
+rewrite[R8] `self .epoch_info .epoch_info() .validator(root) .disseminator_address` => `verif_addr(self.epoch_info.epoch.validator(root))`
+rewrite[R8] `self.network.send(shred, addr)` => `self.network.verif_send(shred, addr)`
+requires
+        old(self).tree_cache_ok(),
+        shred.spec_payload().header.slice_index.0 < 1024 && shred.spec_payload().shred_index.0 < TOTAL_SHREDS,
+ensures
+        // [C16.leader_and_forwarders_use_the_same_tree] the leader sends the shred to the root of the tree for
+        // (slot, index of the shred in the slot) ...
+        final(self).network.sent() == old(self).network.sent().push(SendRecord { shred: *shred,
+            to: Seq::<SocketAddr>::empty().push(spec_addr(old(self).epoch_info.epoch.validators@[
+                old(self).spec_own_tree(shred.spec_payload().header.slot, Self::spec_shred_key(*shred)).root.0 as int])) }),
+@*/
+
+/*@ extract src/disseminator/turbine.rs :: impl Turbine<N>/fn forward_shred
+props C16
+ret r
+elide-async
+sig `&self` => `&mut self`
+sig `std::io::Result<()>` => `Result<(), IoError>`
+rewrite[R8] `tree.get_children().iter().copied().map(|child| { self.epoch_info .epoch_info() .validator(child) .disseminator_address })` => `verif_addrs_of(&self.epoch_info.epoch, &tree.children)`
+rewrite[R8] `self.network.send_to_many(shred, addrs)` => `self.network.verif_send_to_many(shred, addrs)`
+requires
+        old(self).tree_cache_ok(),
+        shred.spec_payload().header.slice_index.0 < 1024 && shred.spec_payload().shred_index.0 < TOTAL_SHREDS,
+ensures
+        // [C16.leader_and_forwarders_use_the_same_tree] ... and every receiver forwards it to its children in the tree for the
+        // SAME key
+        final(self).network.sent() == old(self).network.sent().push(SendRecord { shred: *shred,
+            to: spec_addrs(old(self).epoch_info.epoch.validators@,
+                old(self).spec_own_tree(shred.spec_payload().header.slot, Self::spec_shred_key(*shred)).children@) }),
 @*/
 }
 
